@@ -4,6 +4,7 @@ Confirms a sub-agent's seeded change (demo fails with the patch, passes without;
 /verif/seeded/<name>/, runs the property's quick check against /repo with the patch applied, reverts."""
 import json, os, shutil, subprocess, sys, time
 R = os.environ.get("VERIF_REPO", "/repo")   # checks honour VERIF_REPO too (inherited environment)
+os.environ.setdefault("VERIF_EVIDENCE", "/tmp/vf_seed_evidence")
 wt, prop, name, demo = sys.argv[1:5]
 def sh(cmd, cwd=None, timeout=3000):
     return subprocess.run(cmd, shell=True, cwd=cwd, capture_output=True, text=True, timeout=timeout)
